@@ -74,7 +74,7 @@ Theorem readline_stream : forall cs, ff cs -> forall avail acc buf n,
   | Some (line, rest) =>
       exists cs' avail' buf' n', readline cs avail acc buf n = (RDone line, (cs', avail', buf'), n')
                                  /\ buf' ++ avail' = rest /\ ff cs'
-  | None => exists st n', readline cs avail acc buf n = (RRaise WouldBlock, st, n')
+  | None => exists cs' n', readline cs avail acc buf n = (RRaise WouldBlock, (cs', [], acc ++ buf ++ avail), n') /\ ff cs'
   end.
 Proof.
   induction cs as [|c cs IH]; intros Hff avail acc buf n Hacc.
@@ -84,11 +84,11 @@ Proof.
     + rewrite app_assoc. rewrite (split_crlf_app_some _ avail _ _ E1).
       exists [], avail, b', n. repeat split; auto; try constructor.
     + destruct avail as [|a0 av].
-      * rewrite !app_nil_r, E1. eauto.
+      * rewrite !app_nil_r, E1. exists [], (S n). split; [reflexivity|constructor].
       * rewrite (readline_check_spec (acc ++ buf) (a0 :: av) E1). rewrite <- app_assoc.
         destruct (split_crlf (acc ++ buf ++ a0 :: av)) as [[line b']|].
         -- exists [], [], b', (S n). repeat split; auto; try apply app_nil_r; try constructor.
-        -- eauto.
+        -- exists [], (S (S n)). split; [reflexivity|constructor].
   - cbn [readline]. rewrite (readline_check_spec acc buf Hacc).
     destruct (split_crlf (acc ++ buf)) as [[line b']|] eqn:E1.
     + rewrite app_assoc. rewrite (split_crlf_app_some _ avail _ _ E1).
@@ -96,9 +96,9 @@ Proof.
     + destruct c as [k| |e|]; try (inversion Hff as [|? ? Hc _]; destruct Hc).
       * (* a chunk *)
         destruct avail as [|a0 av].
-        -- rewrite !app_nil_r, E1. eauto.
+        -- rewrite !app_nil_r, E1. exists cs, (S n). split; [reflexivity|apply (ff_tail _ _ Hff)].
         -- specialize (IH (ff_tail _ _ Hff) (skipn (chunk_len k) (a0 :: av)) (acc ++ buf) (firstn (chunk_len k) (a0 :: av)) (S n) E1).
-           rewrite <- app_assoc in IH. rewrite firstn_skipn in IH. exact IH.
+           rewrite <- !app_assoc in IH. rewrite firstn_skipn in IH. exact IH.
       * (* EINTR: recv is retried *)
         apply (IH (ff_tail _ _ Hff) avail acc buf (S n) Hacc).
 Qed.
@@ -170,22 +170,23 @@ Theorem readvalue_recv_stream size : 0 <= size -> forall cs, ff cs -> forall ava
     exists cs' avail' buf' n',
       readvalue_recv cs avail acc started rlen n = (RDone (firstn (Z.to_nat size) (acc ++ avail)), (cs', avail', buf'), n')
       /\ buf' ++ avail' = skipn (Z.to_nat (size + 2)) (acc ++ avail) /\ ff cs'
-  else exists st n', readvalue_recv cs avail acc started rlen n = (RRaise WouldBlock, st, n').
+  else exists cs' n', readvalue_recv cs avail acc started rlen n = (RRaise WouldBlock, (cs', [], acc ++ avail), n') /\ ff cs'.
 Proof.
   intros Hs. induction cs as [|c cs IH]; intros Hff avail acc started rlen n Hinv.
   - cbn [readvalue_recv]. destruct avail as [|a0 av].
     + rewrite app_nil_r. destruct Hinv as (Hr & Hpos & _).
-      destruct (Z.geb_spec (zlen acc) (size + 2)); [lia|]. eauto.
+      destruct (Z.geb_spec (zlen acc) (size + 2)); [lia|]. exists [], (S n). split; [reflexivity|constructor].
     + rewrite zlen_app. destruct Hinv as (Hr & Hpos & Hst).
       destruct (Z.gtb_spec (rlen - zlen (a0 :: av)) 0) as [G|G];
-      destruct (Z.geb_spec (zlen acc + zlen (a0 :: av)) (size + 2)) as [G2|G2]; try lia; [eauto|].
+      destruct (Z.geb_spec (zlen acc + zlen (a0 :: av)) (size + 2)) as [G2|G2]; try lia;
+        [exists [], (S (S n)); split; [reflexivity|constructor]|].
       rewrite (rv_finish_spec size acc started rlen (a0 :: av) Hs (conj Hr (conj Hpos Hst)) ltac:(lia)).
       exists [], [], (skipn (Z.to_nat (size + 2)) (acc ++ a0 :: av)), (S n).
       repeat split; [apply app_nil_r|constructor].
   - destruct c as [k| |e|]; try (inversion Hff as [|? ? Hc _]; destruct Hc); cbn [readvalue_recv].
     + destruct avail as [|a0 av].
       * rewrite app_nil_r. destruct Hinv as (Hr & Hpos & _).
-        destruct (Z.geb_spec (zlen acc) (size + 2)); [lia|]. eauto.
+        destruct (Z.geb_spec (zlen acc) (size + 2)); [lia|]. exists cs, (S n). split; [reflexivity|apply (ff_tail _ _ Hff)].
       * set (d := firstn (chunk_len k) (a0 :: av)). set (av' := skipn (chunk_len k) (a0 :: av)).
         assert (Hsplit : a0 :: av = d ++ av') by (symmetry; apply firstn_skipn).
         cbv zeta.
@@ -215,7 +216,7 @@ Theorem readvalue_stream size : 0 <= size -> forall cs, ff cs -> forall avail bu
     exists cs' avail' buf' n',
       readvalue cs avail [] false (size + 2) buf n = (RDone (firstn (Z.to_nat size) (buf ++ avail)), (cs', avail', buf'), n')
       /\ buf' ++ avail' = skipn (Z.to_nat (size + 2)) (buf ++ avail) /\ ff cs'
-  else exists st n', readvalue cs avail [] false (size + 2) buf n = (RRaise WouldBlock, st, n').
+  else exists cs' n', readvalue cs avail [] false (size + 2) buf n = (RRaise WouldBlock, (cs', [], buf ++ avail), n') /\ ff cs'.
 Proof.
   intros Hs cs Hff avail buf n. unfold readvalue.
   assert (Hinv0 : rv_inv size [] false (size + 2)).
@@ -282,21 +283,21 @@ Theorem readsegment_stream tok : forall cs, ff cs -> forall avail buf n,
   | Some (before, after) =>
       exists cs' avail' buf' n', readsegment cs avail tok buf n = (RDone before, (cs', avail', buf'), n')
                                  /\ buf' ++ avail' = after /\ ff cs'
-  | None => exists st n', readsegment cs avail tok buf n = (RRaise WouldBlock, st, n')
+  | None => exists cs' n', readsegment cs avail tok buf n = (RRaise WouldBlock, (cs', [], buf ++ avail), n') /\ ff cs'
   end.
 Proof.
   induction cs as [|c cs IH]; intros Hff avail buf n.
   - cbn [readsegment]. destruct (split_token tok buf) as [[b a]|] eqn:E1.
     + rewrite (split_token_app tok buf avail b a E1). exists [], avail, a, n. repeat split; auto; try constructor.
     + destruct avail as [|a0 av].
-      * rewrite app_nil_r, E1. eauto.
-      * destruct (split_token tok (buf ++ a0 :: av)) as [[b a]|]; [|eauto].
+      * rewrite app_nil_r, E1. exists [], (S n). split; [reflexivity|constructor].
+      * destruct (split_token tok (buf ++ a0 :: av)) as [[b a]|]; [|exists [], (S (S n)); split; [reflexivity|constructor]].
         exists [], [], a, (S n). repeat split; auto; try apply app_nil_r; try constructor.
   - cbn [readsegment]. destruct (split_token tok buf) as [[b a]|] eqn:E1.
     + rewrite (split_token_app tok buf avail b a E1). exists (c :: cs), avail, a, n. repeat split; auto.
     + destruct c as [k| |e|]; try (inversion Hff as [|? ? Hc _]; destruct Hc).
       * destruct avail as [|a0 av].
-        -- rewrite app_nil_r, E1. eauto.
+        -- rewrite app_nil_r, E1. exists cs, (S n). split; [reflexivity|apply (ff_tail _ _ Hff)].
         -- specialize (IH (ff_tail _ _ Hff) (skipn (chunk_len k) (a0 :: av)) (buf ++ firstn (chunk_len k) (a0 :: av)) (S n)).
            rewrite <- app_assoc, firstn_skipn in IH. exact IH.
       * apply (IH (ff_tail _ _ Hff) avail buf (S n)).
